@@ -5,10 +5,11 @@
 # against the changed tree. Writes /tmp/seedcheck/<PROP>-<m>.log and .json
 export GOFLAGS="-mod=mod -trimpath" GOPROXY=off
 P=$1; M=$2; shift 2; EXTRA="$@"
-SRC=/tmp/seedout/$P/$M
-WT=/tmp/sc-$P-$M
+SRC=${SEEDOUT:-/tmp/seedout}/$P/$M
+T=${TAG:-}
+WT=/tmp/sc$T-$P-$M
 OUT=/tmp/seedcheck; mkdir -p $OUT
-LOG=$OUT/$P-$M.log
+LOG=$OUT/$P-$M$T.log
 exec > $LOG 2>&1
 set -x
 git -C /repo worktree remove --force $WT 2>/dev/null
@@ -28,20 +29,20 @@ echo "touched: $PKGS demo pkg: $DEMOPKG"
 # existing tests of touched packages (and the action packages for scheduler changes)
 TESTPKGS="$PKGS"
 case "$PKGS" in *pkg/scheduler*) TESTPKGS="$PKGS ./pkg/scheduler/actions/... ./pkg/scheduler/framework/... ./pkg/scheduler/api/...";; esac
-go test -count=1 $TESTPKGS > $OUT/$P-$M.existing.txt 2>&1; EXIST=$?
-grep -v "^ok\|no test files" $OUT/$P-$M.existing.txt | head -20
+go test -count=1 $TESTPKGS > $OUT/$P-$M$T.existing.txt 2>&1; EXIST=$?
+grep -v "^ok\|no test files" $OUT/$P-$M$T.existing.txt | head -20
 cp $SRC/demo_test.go $WT/$DEMOPKG/zz_seed_demo_test.go
-go test -count=1 -run 'Seed|seed|Demo' ./$DEMOPKG/ > $OUT/$P-$M.demo_with.txt 2>&1; DW=$?
+go test -count=1 -run 'Seed|seed|Demo' ./$DEMOPKG/ > $OUT/$P-$M$T.demo_with.txt 2>&1; DW=$?
 git apply -R $SRC/patch.diff
-go test -count=1 -run 'Seed|seed|Demo' ./$DEMOPKG/ > $OUT/$P-$M.demo_without.txt 2>&1; DWO=$?
+go test -count=1 -run 'Seed|seed|Demo' ./$DEMOPKG/ > $OUT/$P-$M$T.demo_without.txt 2>&1; DWO=$?
 git apply $SRC/patch.diff
 rm -f $WT/$DEMOPKG/zz_seed_demo_test.go
 DET=""
 for C in $P $EXTRA; do
-  (cd /verif && VERIF_REPO=$WT VERIF_OUT=/tmp/seedcheck/out-$P-$M-$C ./verif check $C --tier quick) > $OUT/$P-$M.check-$C.txt 2>&1; RC=$?
+  (cd /verif && VERIF_REPO=$WT VERIF_OUT=/tmp/seedcheck/out-$P-$M$T-$C ./verif check $C --tier quick) > $OUT/$P-$M$T.check-$C.txt 2>&1; RC=$?
   DET="$DET $C:$RC"
 done
-echo "RESULT prop=$P m=$M existing_tests_rc=$EXIST demo_with_rc=$DW demo_without_rc=$DWO checks=$DET"
+echo "RESULT prop=$P m=$M$T existing_tests_rc=$EXIST demo_with_rc=$DW demo_without_rc=$DWO checks=$DET"
 cd /; git -C /repo worktree remove --force $WT
-rm -rf /tmp/seedcheck/out-$P-$M-*/bin /tmp/seedcheck/out-$P-$M-*/harness 2>/dev/null
+rm -rf /tmp/seedcheck/out-$P-$M$T-*/bin /tmp/seedcheck/out-$P-$M$T-*/harness 2>/dev/null
 find /root/.cache/go-build -type f -mmin +240 -delete 2>/dev/null
